@@ -187,58 +187,79 @@ PASS_THROUGH = {"map_err", "map", "and_then", "into", "from", "branch", "ok_or",
 TERMINAL_OK = {"unwrap", "expect", "from_residual"}
 
 
-def consumed(f, call_block):
-    """The Result produced by the call terminating call_block is checked: it flows (through moves and
-    pass-through adaptors) to `?` (Try::branch whose Break arm is an error exit), to the return place,
-    to unwrap/expect, or its discriminant is switched on.  Returns (ok, reason)."""
+def consumed(f, call_block, path=()):
+    """The Result produced by the call terminating call_block (at field path `path` of the returned value,
+    e.g. (0,) for the first component of a returned tuple) is checked: it flows (through moves and
+    pass-through adaptors) to `?` (Try::branch), to the return place, to unwrap/expect, or its
+    discriminant is switched on.  Returns (ok, reason)."""
     t = f.blocks[call_block]["t"]
-    work = [t["dest"]["l"]]
+    work = [(t["dest"]["l"], tuple(path))]
     seen = set()
+
+    def fields_of(pl):
+        return tuple(e["f"] for e in pl.get("p", []) if isinstance(e, dict) and "f" in e)
+
+    def match(pl, l, path):
+        """does a read of place pl touch (l, path)?  returns remaining path or None"""
+        if pl["l"] != l:
+            return None
+        fp = fields_of(pl)
+        n = min(len(fp), len(path))
+        if fp[:n] != path[:n]:
+            return None
+        if len(fp) >= len(path):
+            return ()
+        return path[len(fp):]
+
     while work:
-        l = work.pop()
-        if l in seen:
+        l, path = work.pop()
+        if (l, path) in seen:
             continue
-        seen.add(l)
-        if l == 0:
+        seen.add((l, path))
+        if l == 0 and not path:
             return True, "returned"
         for bi, bb in enumerate(f.blocks):
             for s in bb["s"]:
                 if "d" not in s:
                     continue
                 v = s["v"]
-                uses = False
-                if v["r"] == "discr" and v["pl"]["l"] == l:
-                    return True, "matched"
+                if v["r"] == "discr":
+                    r = match(v["pl"], l, path)
+                    if r == ():
+                        return True, "matched"
                 for o in v.get("a", []):
                     p = op_place(o)
-                    if p and p["l"] == l:
-                        uses = True
-                if v["r"] in ("ref",) and v["pl"]["l"] == l:
-                    uses = True
-                if uses:
-                    work.append(s["d"]["l"])
+                    if p:
+                        r = match(p, l, path)
+                        if r is not None:
+                            work.append((s["d"]["l"], fields_of(s["d"]) + r))
+                if v["r"] in ("ref",):
+                    r = match(v["pl"], l, path)
+                    if r is not None:
+                        work.append((s["d"]["l"], fields_of(s["d"]) + r))
             tt = bb["t"]
             if tt["k"] == "call":
                 for o in tt["args"]:
                     p = op_place(o)
-                    if p and p["l"] == l:
-                        ci = f.dinfo(tt["res"]) if tt.get("res") is not None else f.dinfo(tt["raw"]) if "raw" in tt else None
-                        nm = ci["name"] if ci else ""
-                        if nm == "branch":
-                            return True, "?"
-                        if nm in TERMINAL_OK:
-                            return True, nm
-                        if nm in PASS_THROUGH:
-                            work.append(tt["dest"]["l"])
-                        else:
-                            # passed to some other function: treated as consumed only if that function
-                            # is not a known swallower
-                            if nm in ("ok", "is_ok", "is_err", "unwrap_or", "unwrap_or_default", "unwrap_or_else", "or", "or_else", "err", "drop"):
-                                continue
-                            work.append(tt["dest"]["l"])
+                    if not p:
+                        continue
+                    r = match(p, l, path)
+                    if r is None:
+                        continue
+                    ci = f.dinfo(tt["res"]) if tt.get("res") is not None else f.dinfo(tt["raw"]) if "raw" in tt else None
+                    nm = ci["name"] if ci else ""
+                    if r != ():
+                        continue    # a container holding the result is passed on: not a check of the result
+                    if nm == "branch":
+                        return True, "?"
+                    if nm in TERMINAL_OK:
+                        return True, nm
+                    if nm in ("ok", "is_ok", "is_err", "unwrap_or", "unwrap_or_default", "unwrap_or_else", "or", "or_else", "err", "drop"):
+                        continue
+                    work.append((tt["dest"]["l"], ()))
             if tt["k"] == "switch":
                 p = op_place(tt["on"])
-                if p and p["l"] == l:
+                if p and match(p, l, path) == ():
                     return True, "switched"
     return False, "result never checked"
 
